@@ -83,11 +83,11 @@ func j_reSampleOf(expr string) (string, bool, error) {
 func LoadJoinRegexSamples(repo string) (map[string][][2]string, error) {
 	out := map[string][][2]string{}
 	for dir, name := range map[string]string{"aws": "awsRegexes", "oracle": "oracleRegexes", "photon": "photonRegexes"} {
-		sc, err := j_loadScope(repo, dir, false)
+		p, err := rxLoadPkg(repo, dir)
 		if err != nil {
 			return nil, err
 		}
-		rt, err := j_regexTable(sc, name)
+		rt, err := rxjRegexTable(p, name)
 		if err != nil {
 			return nil, err
 		}
